@@ -20,6 +20,17 @@ fn bsearch_pc(a: &[u64], k: u64) -> usize {
 }
 
 /// Ok((positions, rounds)) | Err(rounds at which a state repeated)
+static WIDEN: std::sync::atomic::AtomicU64 = std::sync::atomic::AtomicU64::new(0);
+static NOTNEST: std::sync::atomic::AtomicU64 = std::sync::atomic::AtomicU64::new(0);
+static INVERT: std::sync::atomic::AtomicU64 = std::sync::atomic::AtomicU64::new(0);
+static UPDATES: std::sync::atomic::AtomicU64 = std::sync::atomic::AtomicU64::new(0);
+static UNSORTED_ROUNDS: std::sync::atomic::AtomicU64 = std::sync::atomic::AtomicU64::new(0);
+static NOSHRINK_MOVE: std::sync::atomic::AtomicU64 = std::sync::atomic::AtomicU64::new(0);
+static NOTNEST_POSW: std::sync::atomic::AtomicU64 = std::sync::atomic::AtomicU64::new(0);
+static UNS_UNSETTLED: std::sync::atomic::AtomicU64 = std::sync::atomic::AtomicU64::new(0);
+static BR_NONMONO: std::sync::atomic::AtomicU64 = std::sync::atomic::AtomicU64::new(0);
+static WIDEN_SORTED: std::sync::atomic::AtomicU64 = std::sync::atomic::AtomicU64::new(0);
+
 fn wq(pts: &[u64], ws: &[f64], n: usize, cap: usize) -> Result<(Vec<u64>, usize), usize> {
     let mn = *pts.iter().min().unwrap();
     let mx = *pts.iter().max().unwrap();
@@ -31,6 +42,14 @@ fn wq(pts: &[u64], ws: &[f64], n: usize, cap: usize) -> Result<(Vec<u64>, usize)
         rounds += 1;
         if rounds > cap || !seen.insert(s.clone()) { return Err(rounds); }
         let pos: Vec<u64> = s.iter().map(|x| x.pos).collect();
+        if !pos.windows(2).all(|w| w[0] <= w[1]) {
+            use std::sync::atomic::Ordering::Relaxed;
+            let k = UNSORTED_ROUNDS.fetch_add(1, Relaxed);
+            let us: Vec<&Split> = s.iter().filter(|x| !x.st).collect();
+            if !us.windows(2).all(|w| w[0].pos <= w[1].pos) { UNS_UNSETTLED.fetch_add(1, Relaxed); }
+            if !us.windows(2).all(|w| w[0].mn <= w[1].mn && w[0].mx <= w[1].mx) { BR_NONMONO.fetch_add(1, Relaxed); }
+            if k < 3 { println!("unsorted round {}: {:?} pts={:?} ws={:?} n={}", rounds, s.iter().map(|x| (x.pos, x.mn, x.mx, x.st as u8)).collect::<Vec<_>>(), pts, ws, n); }
+        }
         let mut pw = vec![0.0f64; n];
         for (p, w) in pts.iter().zip(ws) { pw[bsearch_pc(&pos, *p)] += *w; }
         let total: f64 = pw.iter().cloned().sum();
@@ -63,6 +82,20 @@ fn wq(pts: &[u64], ws: &[f64], n: usize, cap: usize) -> Result<(Vec<u64>, usize)
                     else if a < exp { if sp.mn < pos[q] { sp.mn = pos[q]; } break; }
                     else if exp < a { sp.mx = pos[q]; }
                 }
+            }
+            {
+                use std::sync::atomic::Ordering::Relaxed;
+                let old = &s[p];
+                UPDATES.fetch_add(1, Relaxed);
+                let w0 = old.mx.abs_diff(old.mn); let w1 = sp.mx.abs_diff(sp.mn);
+                let sorted = pos.windows(2).all(|w| w[0] <= w[1]);
+                if w1 > w0 { WIDEN.fetch_add(1, Relaxed); if sorted { WIDEN_SORTED.fetch_add(1, Relaxed); } }
+                if sp.mn > sp.mx { INVERT.fetch_add(1, Relaxed); }
+                let (lo0, hi0) = (old.mn.min(old.mx), old.mn.max(old.mx));
+                if sp.mn < lo0 || sp.mx > hi0 || sp.mn > hi0 || sp.mx < lo0 { NOTNEST.fetch_add(1, Relaxed); if w1 > 0 { NOTNEST_POSW.fetch_add(1, Relaxed); } }
+                let np = (sp.mn & sp.mx) + (sp.mn ^ sp.mx) / 2;
+                if np != sp.pos && w1 >= w0 { NOSHRINK_MOVE.fetch_add(1, Relaxed);
+                    if NOSHRINK_MOVE.load(Relaxed) < 4 { println!("noshrink: p={} old={:?} new=({}, {}) pos={:?} pw={:?} n={}", p, old, sp.mn, sp.mx, pos, pw, n); } }
             }
             let np = (sp.mn & sp.mx) + (sp.mn ^ sp.mx) / 2;
             if np == sp.pos { sp.st = true; todo -= 1; } else { sp.pos = np; }
@@ -137,6 +170,9 @@ fn main() {
             let mut best = (0, None);
             for h in hs { let x = h.join().unwrap(); if x.0 > best.0 { best = x; } }
             println!("rand: {} x {} cases, no repeating state; max rounds {} at {:?}", threads, cnt, best.0, best.1);
+            use std::sync::atomic::Ordering::Relaxed;
+            println!("bracket updates {}: widened {} (of which with sorted positions {}), not nested in the old bracket {}, inverted (min>max) {}; rounds with unsorted positions {}(unsettled splits out of order among themselves {}, their brackets not monotone {}); not nested with positive width {}; moving updates whose width did not shrink {}",
+                UPDATES.load(Relaxed), WIDEN.load(Relaxed), WIDEN_SORTED.load(Relaxed), NOTNEST.load(Relaxed), INVERT.load(Relaxed), UNSORTED_ROUNDS.load(Relaxed), UNS_UNSETTLED.load(Relaxed), BR_NONMONO.load(Relaxed), NOTNEST_POSW.load(Relaxed), NOSHRINK_MOVE.load(Relaxed));
         }
         // exhaustive: m points with indices in 0..range (sorted multisets), weights in a small set, n in 3..=maxn
         "ex" => {
